@@ -202,15 +202,6 @@ theorem coplanar_accepted (P Q : Plane) (hP : P.Valid) (hQ : Q.Valid) (hn : P.nr
 
 /-! ## affines built from attributes: orthogonal axes, lengths, handedness, origin -/
 
-/-- in every valid convention the two in-plane axes are an orthonormal pair (given orthonormal cosines) -/
-theorem axis_orthoPair (o : Ori) (ho : OrthoPair o.row o.col) {cv : Char × Char} (hcv : cv ∈ validConventions) :
-    OrthoPair (axisVec o cv.1) (axisVec o cv.2) := by
-  obtain ⟨h0, h1, h01⟩ := ho
-  obtain ⟨⟨a, b, c⟩, ⟨d, e, f⟩⟩ := o
-  simp only [V3.dot] at h0 h1 h01
-  rcases mem_validConventions hcv with rfl | rfl | rfl | rfl | rfl | rfl | rfl | rfl <;>
-    refine ⟨?_, ?_, ?_⟩ <;> simp [axisVec, V3.dot, V3.neg] <;> linarith
-
 /-- **orthogonal axes, lengths = the given spacings, requested handedness** — `create_rotation_matrix`
 for every one of the eight index conventions, slices first or last, both handednesses, any positive
 pixel spacings and any slice spacing, any orthonormal pair of row / column cosines (axis-aligned or
